@@ -29,7 +29,7 @@ def handle (j : Json) : IO Unit := do
   let cErr := jstr (jget cl "err")
   -- model
   let (tr, res) := execute (selectPrio eps) (outcomeOfIn (jstr (jget sc "engine")) (jnat (jget sc "read_timeout_ms")) eps) (candidates eps)
-  let mOrder := (contactedList tr).filter (fun i => (eps.find? (·.idx == i)).map (·.kind) != some "refuse")
+  let mOrder := (contactedList tr).filter (fun i => !((eps.find? (·.idx == i)).map (·.kind) == some "refuse" || (eps.find? (·.idx == i)).map (·.kind) == some "dnsfail"))
   let mOffline := offlineList tr
   let mView := clientStatus tr
   let implOffline := (eps.filter (fun e => jstr (jget (jget impl "statuses") e.name) == "offline")).map (·.idx)
